@@ -741,9 +741,10 @@ def _r5_persistence(run):
             from sa import teval as _teval
             clears = [e for e in rg.events if e.kind == "call" and e.term[1][0] == "attr" and e.term[1][2] == "clear" and e.term[1][1] == t]
             base = set(c for c in pc if c[0] != "loop")
-            extra = [[c for c in e.pc if c[0] != "loop" and c not in base] for e in clears]
+            mode_obj = t[1][1]
+            # only conditions about the mode matter here (how the request for a masked default is spelled is decided above)
+            extra = [[c for c in e.pc if c[0] != "loop" and c not in base and mode_obj in _subterms_of(c[0])] for e in clears]
             if all(extra):
-                mode_obj = t[1][1]
                 members = _enum_members(project)
                 mk = project.fn(IMG + ".ImageMode.make_maskable_buffer")
                 for m in members:
